@@ -57,7 +57,9 @@ CONSTANTS
   GMaxRows,     \* rows (PACs) per caption
   GMaxItems,    \* text items per row
   GStarts,      \* set of <<df, h, m, s, f>> start time codes (df = TRUE for ';')
-  GMids, GSpecials, GExtendeds   \* sets of mid-row attributes 0..15, special indices 0..15, extended <<group, index>>
+  GMids, GSpecials, GExtendeds,  \* sets of mid-row attributes 0..15, special indices 0..15, extended <<group, index>>
+  Pick(_)       \* Pick(S) = the members of S the generator branches over: S itself in exhaustive models, one random
+                \* member ({RandomElement(S)}) when simulating over the full alphabets
 
 VARIABLES mode, depth, base, disp, ndisp, cur, pen, lastCtl, frame, chan, df
 dvars == <<mode, depth, base, disp, ndisp, cur, pen, lastCtl, frame, chan, df>>
@@ -351,7 +353,7 @@ EmitText(w) == CodeOk /\ ~c2 /\ Emit(w) /\ pend' = 0 /\ c2' = c2 /\ budget' = bu
 
 GInit ==
   /\ DInit
-  /\ \E st \in GStarts : df = st[1] /\ frame = LabelFrames(st[1], <<st[2], st[3], st[4], st[5]>>)
+  /\ \E st \in Pick(GStarts) : df = st[1] /\ frame = LabelFrames(st[1], <<st[2], st[3], st[4], st[5]>>)
   /\ ph = "start" /\ style = "none" /\ ncap = 0 /\ nrow = 0 /\ nitem = 0 /\ pend = 0 /\ c2 = FALSE
   /\ sent = <<LineMark>> /\ budget = 2
 
@@ -364,7 +366,7 @@ GNull == Has("null") /\ budget > 0 /\ CodeOk /\ Emit(0) /\ pend' = 0 /\ budget' 
 GCh2Code == Has("ch2") /\ budget > 0 /\ CodeOk /\ ph \in {"start", "row", "cr", "enm"}
             /\ (\E w \in {Ch2(WRCL), Ch2(WPac(15, 16)), Ch2(WEDM), Ch2(WEOC)} : Emit(w))
             /\ pend' = 0 /\ c2' = TRUE /\ budget' = budget - 1 /\ UNCHANGED <<ph, style, ncap, nrow, nitem>>
-GCh2Text == c2 /\ budget > 0 /\ (\E p \in GChars : Emit(WChars(p[1], p[2])))
+GCh2Text == c2 /\ budget > 0 /\ (\E p \in Pick(GChars) : Emit(WChars(p[1], p[2])))
             /\ pend' = 0 /\ budget' = budget - 1 /\ UNCHANGED <<ph, style, ncap, nrow, nitem, c2>>
 
 GLine == Has("gap") /\ ph = "start" /\ ncap > 0 /\ CodeOk /\ Len(sent) > 0 /\ sent[Len(sent)] < LineMark
@@ -375,11 +377,11 @@ GLine == Has("gap") /\ ph = "start" /\ ncap > 0 /\ CodeOk /\ Len(sent) > 0 /\ se
          /\ UNCHANGED <<ph, style, ncap, nrow, nitem, c2, budget>>
 
 GMode == /\ ph = "start" /\ ncap < GMaxCaps
-         /\ \E st \in GStyles :
+         /\ \E st \in Pick(GStyles) :
               /\ style' = st
               /\ CASE st = "popon"   -> EmitCode(WRCL) /\ ph' = (IF Has("enm") THEN "enm" ELSE "row")
                    [] st = "painton" -> EmitCode(WRDC) /\ ph' = "row"
-                   [] st = "rollup"  -> (\E d \in GDepths : EmitCode(WRU(d))) /\ ph' = "cr"
+                   [] st = "rollup"  -> (\E d \in Pick(GDepths) : EmitCode(WRU(d))) /\ ph' = "cr"
          /\ ncap' = ncap + 1 /\ nrow' = 0 /\ nitem' = 0
 
 GEnm  == ph = "enm" /\ (EmitCode(WENM) \/ (pend' = pend /\ c2' = c2 /\ budget' = budget /\ UNCHANGED dvars /\ sent' = sent))
@@ -388,14 +390,14 @@ GCr   == ph = "cr" /\ EmitCode(WCR) /\ ph' = "row" /\ UNCHANGED <<style, ncap, n
 
 GPac  == /\ \/ ph = "row"
             \/ ph = "txt" /\ style # "rollup" /\ nrow < GMaxRows /\ nitem > 0
-         /\ \E r \in GRows, d \in GDescs : EmitCode(WPac(r, d))
+         /\ \E r \in Pick(GRows), d \in Pick(GDescs) : EmitCode(WPac(r, d))
          /\ ph' = "txt" /\ nrow' = nrow + 1 /\ nitem' = 0 /\ UNCHANGED <<style, ncap>>
 
 GItem == /\ ph = "txt" /\ nitem < GMaxItems
-         /\ \/ \E p \in GChars : EmitText(WChars(p[1], p[2]))
-            \/ Has("midrow") /\ \E a \in GMids : EmitCode(WMid(a))
-            \/ Has("special") /\ \E k \in GSpecials : EmitCode(WSpecial(k))
-            \/ Has("extended") /\ nitem > 0 /\ \E e \in GExtendeds : EmitCode(WExtended(e[1], e[2]))
+         /\ \/ \E p \in Pick(GChars) : EmitText(WChars(p[1], p[2]))
+            \/ Has("midrow") /\ \E a \in Pick(GMids) : EmitCode(WMid(a))
+            \/ Has("special") /\ \E k \in Pick(GSpecials) : EmitCode(WSpecial(k))
+            \/ Has("extended") /\ nitem > 0 /\ \E e \in Pick(GExtendeds) : EmitCode(WExtended(e[1], e[2]))
             \/ Has("bs") /\ nitem > 0 /\ EmitCode(WBS)
             \/ Has("to") /\ \E k \in 1..3 : EmitCode(WTO(k))
             \/ Has("der") /\ style = "painton" /\ EmitCode(WDER)
